@@ -6,7 +6,6 @@ package main
 // fetch-on-missing covers the manifest kinds, R5 ExtendedCopy tags the node.
 
 import (
-	"fmt"
 	"go/token"
 	"go/types"
 	"sort"
@@ -56,10 +55,30 @@ const (
 // c03RootFinders: functions of the root package that pop the DFS stack and
 // look up predecessors through the option callback (role-based anchor).
 func c03RootFinders(p *Prog) []*ssa.Function {
+	fpOpt := c01FieldOf(p, "", "ExtendedCopyGraphOptions", "FindPredecessors")
 	var out []*ssa.Function
 	for _, f := range p.FuncsOfPkg("") {
-		if len(CallsTo(f, nStackPop)) > 0 && len(CallsTo(f, nFindPred)) > 0 {
+		if len(CallsTo(f, nStackPop)) > 0 && len(c03LookupCalls(f, fpOpt)) > 0 {
 			out = append(out, f)
+		}
+	}
+	return out
+}
+
+// c03LookupCalls: dynamic calls in f whose callee value is (or may be, through
+// a phi / local variable that also holds a default) the FindPredecessors option.
+func c03LookupCalls(f *ssa.Function, fpOpt *types.Var) []ssa.CallInstruction {
+	var out []ssa.CallInstruction
+	for _, call := range Calls(f, func(string) bool { return true }) {
+		cc := call.Common()
+		if cc.IsInvoke() || StaticCallee(call) != nil {
+			continue
+		}
+		if _, isB := cc.Value.(*ssa.Builtin); isB {
+			continue
+		}
+		if c01Slice(cc.Value, func(x ssa.Value) bool { return c01IsFieldValue(x, fpOpt) }) {
+			out = append(out, call)
 		}
 	}
 	return out
@@ -89,6 +108,31 @@ func c03LenEdges(fn *ssa.Function, S ssa.Value) (zero, nonZero []Edge) {
 		}
 	}
 	return
+}
+
+// c03LitFieldUnset: v is the content of a local composite literal in which
+// field fv is never stored (it keeps its zero value).
+func c03LitFieldUnset(v ssa.Value, fv *types.Var) bool {
+	ld, ok := v.(*ssa.UnOp)
+	if !ok || ld.Op != token.MUL {
+		return false
+	}
+	a, ok := ld.X.(*ssa.Alloc)
+	if !ok || len(storesTo(a)) > 0 {
+		return false
+	}
+	for _, r := range *a.Referrers() {
+		if fa, ok := r.(*ssa.FieldAddr); ok {
+			if st := c01StructOf(fa.X.Type()); st != nil && st.Field(fa.Field) == fv {
+				for _, r2 := range *fa.Referrers() {
+					if _, isStore := r2.(*ssa.Store); isStore {
+						return false
+					}
+				}
+			}
+		}
+	}
+	return true
 }
 
 // c03LitField: v is the content of a local composite literal (load of an
@@ -171,25 +215,35 @@ func c03R1(c *Ctx) {
 	for _, F := range fs {
 		fname := FnName(F)
 		pops := CallsTo(F, nStackPop)
-		if len(pops) != 1 {
-			c.Undecided(R, fname+"|dfs-loop", F.Pos(), fmt.Sprintf("%d Stack.Pop call sites: the DFS loop shape is not the confirmed one", len(pops)))
-			continue
-		}
-		pop := pops[0]
+		// the DFS loop: the innermost loop containing a Pop (a three-clause `for x, ok := Pop(); ok; x, ok = Pop()` has a second one before it)
 		var dfs *Loop
-		for _, l := range Loops(F) {
-			if l.Contains(pop.(ssa.Instruction)) && (dfs == nil || len(l.Blocks) < len(dfs.Blocks)) {
-				dfs = l
+		var pop ssa.CallInstruction
+		for _, pc := range pops {
+			for _, l := range Loops(F) {
+				if l.Contains(pc.(ssa.Instruction)) && (dfs == nil || len(l.Blocks) < len(dfs.Blocks)) {
+					dfs, pop = l, pc
+				}
 			}
 		}
 		if dfs == nil {
-			c.Violation(R, fname+"|dfs-loop", pop.Pos(), "Stack.Pop is not inside a loop: only one node would be examined")
+			c.Violation(R, fname+"|dfs-loop", pops[0].Pos(), "Stack.Pop is not inside a loop: only one node would be examined")
 			continue
 		}
 		header := dfs.Header.Instrs[0]
-		popped := ResultOf(pop, 0)
-		okv := ResultOf(pop, 1)
-		if popped == nil {
+		poppedSet, okSet := map[ssa.Value]bool{}, map[ssa.Value]bool{}
+		for _, pc := range pops {
+			if v := ResultOf(pc, 0); v != nil {
+				for a := range Aliases(v) {
+					poppedSet[a] = true
+				}
+			}
+			if v := ResultOf(pc, 1); v != nil {
+				for a := range Aliases(v) {
+					okSet[a] = true
+				}
+			}
+		}
+		if len(poppedSet) == 0 {
 			c.Violation(R, fname+"|dfs-loop", pop.Pos(), "the node returned by Stack.Pop is discarded")
 			continue
 		}
@@ -200,18 +254,16 @@ func c03R1(c *Ctx) {
 			i int
 		}
 		var starts []c03Start
-		if okv != nil {
-			okEdges, _ := BoolTests(F, Aliases(okv))
-			for _, e := range okEdges {
-				starts = append(starts, c03Start{e.To, 0})
-			}
+		okEdges, _ := BoolTests(F, okSet)
+		for _, e := range okEdges {
+			starts = append(starts, c03Start{e.To, 0})
 		}
 		if len(starts) == 0 {
 			starts = append(starts, c03Start{pop.Block(), instrIndex(pop.(ssa.Instruction)) + 1})
 		}
 		// values denoting the popped NodeInfo / its fields
 		isCurrent := func(base ssa.Value) bool {
-			if base == popped {
+			if poppedSet[base] {
 				return true
 			}
 			a, ok := base.(*ssa.Alloc)
@@ -219,7 +271,15 @@ func c03R1(c *Ctx) {
 				return false
 			}
 			ss := storesTo(a)
-			return len(ss) == 1 && ss[0].Val == popped
+			if len(ss) == 0 {
+				return false
+			}
+			for _, st := range ss {
+				if !poppedSet[st.Val] {
+					return false
+				}
+			}
+			return true
 		}
 		isCurField := func(v ssa.Value, fv *types.Var) bool {
 			for _, r := range Roots(v) {
@@ -234,7 +294,7 @@ func c03R1(c *Ctx) {
 			return c01Slice(v, func(x ssa.Value) bool { return isCurField(x, nodeNI) })
 		}
 		// predecessor lookup
-		fps := CallsTo(F, nFindPred)
+		fps := c03LookupCalls(F, fpOpt)
 		var fp ssa.CallInstruction
 		for _, x := range fps {
 			if dfs.Contains(x.(ssa.Instruction)) {
@@ -254,6 +314,9 @@ func c03R1(c *Ctx) {
 		}
 		r := ErrFlow(fp, ErrFlowOpts{})
 		c.Check(R, fname+"|predecessor-lookup-error", fp.Pos(), r.OK, r.How+r.Detail)
+		// the looked-up list, also when carried through a variable that is nil when no lookup was made
+		predsSet := Aliases(preds)
+		inPreds := func(v ssa.Value) bool { return v != nil && (predsSet[v] || predsSet[strip(v)]) }
 
 		// record effect: a call (closure or function) inside the loop, other than the
 		// stack/set/lookup helpers, that receives the popped node and reaches a map update;
@@ -270,7 +333,7 @@ func c03R1(c *Ctx) {
 				}
 			case *ssa.Call:
 				n := CalleeName(x)
-				if n == nStackPop || n == nStackPush || n == nFindPred {
+				if n == nStackPop || n == nStackPush || ssa.CallInstruction(x) == fp {
 					return
 				}
 				var callee *ssa.Function
@@ -301,17 +364,32 @@ func c03R1(c *Ctx) {
 		// push loop over the predecessors
 		var pushLoop *Loop
 		for _, l := range Loops(F) {
-			if rg, _, _, _, ok := l.RangeIndex(); ok && c01SameStrip(rg, preds) && l != dfs {
+			if rg, _, _, _, ok := c01ElemLoop(l); ok && inPreds(rg) && l != dfs {
 				pushLoop = l
 			}
 		}
-		zeroE, nonZeroE := c03LenEdges(F, preds)
+		var zeroE, nonZeroE []Edge
+		for pv := range predsSet {
+			z, nz := c03LenEdges(F, pv)
+			zeroE, nonZeroE = append(zeroE, z...), append(nonZeroE, nz...)
+		}
 		// visited-skip edges: true edges of `<set>.Contains(key)` tests
 		var visitedTrue []Edge
 		for _, i := range Ifs(F) {
 			cond, t, _ := ifEdges(i)
 			if call, ok := cond.(*ssa.Call); ok && strings.HasSuffix(CalleeName(call), ".Contains") && strings.Contains(CalleeName(call), "/internal/container/set.") {
 				visitedTrue = append(visitedTrue, t)
+			}
+		}
+		// "already recorded" edges: the key is found in the map the record effect updates
+		for _, i := range Ifs(F) {
+			cond, t, _ := ifEdges(i)
+			if ex, ok := cond.(*ssa.Extract); ok && ex.Index == 1 {
+				if lk, ok := ex.Tuple.(*ssa.Lookup); ok && lk.CommaOk {
+					if mt, ok := lk.X.Type().Underlying().(*types.Map); ok && c01IsOCIDescriptor(mt.Elem()) {
+						visitedTrue = append(visitedTrue, t)
+					}
+				}
 			}
 		}
 		if len(records) == 0 {
@@ -338,7 +416,7 @@ func c03R1(c *Ctx) {
 			ifelse(!bad, "every path from a successful Pop to the next iteration records the node as root, has non-empty predecessors, or skips a visited node",
 				"a path from a successful Pop reaches the next iteration without recording the node as a root and without predecessors to follow: the node's whole upward closure is lost"))
 		// (1b) non-empty predecessors are all pushed
-		_, _, body, _, _ := pushLoop.RangeIndex()
+		_, _, body, _, _ := c01ElemLoop(pushLoop)
 		var entries []Edge
 		for _, p := range pushLoop.Header.Preds {
 			if !pushLoop.Blocks[p] {
@@ -363,11 +441,11 @@ func c03R1(c *Ctx) {
 		c.Check(R, fname+"|every-predecessor-pushed", blockPos(pushLoop.Header), okPush,
 			ifelse(okPush, "each predecessor is pushed unless already visited", "an iteration over the predecessors can finish without pushing the predecessor (other than for visited ones)"))
 		// (3) depths
-		_, idx, _, _, _ := pushLoop.RangeIndex()
+		_, idx, _, _, _ := c01ElemLoop(pushLoop)
 		isElem := func(v ssa.Value) bool {
 			return c01Slice(v, func(x ssa.Value) bool {
 				ia, ok := x.(*ssa.IndexAddr)
-				return ok && c01SameStrip(ia.X, preds) && ia.Index == idx
+				return ok && inPreds(ia.X) && ia.Index == idx
 			})
 		}
 		for _, p := range pushesIn {
@@ -401,9 +479,11 @@ func c03R1(c *Ctx) {
 			k, isK := int64(-1), false
 			if d != nil {
 				k, isK = constInt(d)
+			} else if c03LitFieldUnset(arg, depthNI) {
+				k, isK = 0, true // field omitted in the literal: zero value
 			}
 			isParam := n != nil && c01ParamOf(n) != nil
-			ok := isK && k == 0 && isParam && c01IsOCIDescriptor(n.Type()) && MustPass(header, newCut().Instr(p.(ssa.Instruction)))
+			ok := isK && k == 0 && isParam && n != nil && c01IsOCIDescriptor(n.Type()) && MustPass(header, newCut().Instr(p.(ssa.Instruction)))
 			c.Check(R, fname+"|initial-push-depth-0", p.Pos(), ok,
 				ifelse(ok, "the given node is pushed with Depth 0 before the DFS loop", "the initial push does not carry the given node with Depth 0 on every path into the loop"))
 		}
@@ -495,7 +575,12 @@ func c03R1(c *Ctx) {
 			c.Undecided(R, fname+"|depth-cut-off", F.Pos(), "no comparison of current.Depth with opts.Depth under opts.Depth > 0 recognised")
 		} else {
 			// the lookup is reached only below the cut-off (or with no limit)
-			ok := MustPassBetween(pop.(ssa.Instruction), fp.(ssa.Instruction), newCut().Edges(cutNot...).Edges(unlimited...))
+			ok := true
+			for _, st := range starts {
+				if reach(st.b, st.i, fp.(ssa.Instruction), newCut().Edges(cutNot...).Edges(unlimited...).Instr(header)) {
+					ok = false
+				}
+			}
 			c.Check(R, fname+"|depth-cut-off", cutPos, ok,
 				ifelse(ok, "FindPredecessors is reached only when no limit is set or current.Depth is below opts.Depth", "predecessors of a node at the depth limit can still be looked up and pushed (nodes beyond Depth are copied)"))
 			bad := false
@@ -504,61 +589,96 @@ func c03R1(c *Ctx) {
 					// the cut-off edge is also taken without a limit in force
 					bad = true
 				}
-				if reach(e.To, 0, header, newCut().Instr(records...)) {
+				walkCut := newCut().Instr(records...).Edges(visitedTrue...)
+				// when the list variable is nil on every way from the cut-off to its test, the non-empty branch cannot be taken
+				for pv := range predsSet {
+					phi, isPhi := pv.(*ssa.Phi)
+					if !isPhi {
+						continue
+					}
+					var nilIn []Edge
+					for i, ev := range phi.Edges {
+						if isNilConst(ev) {
+							nilIn = append(nilIn, Edge{phi.Block().Preds[i], phi.Block()})
+						}
+					}
+					viaNil := false
+					for _, ne := range nilIn {
+						if ne == e {
+							viaNil = true
+						}
+					}
+					if len(nilIn) > 0 && (viaNil || !reach(e.To, 0, phi.Block().Instrs[0], newCut().Edges(nilIn...))) {
+						_, nz := c03LenEdges(F, pv)
+						walkCut.Edges(nz...)
+					}
+				}
+				if reach(e.To, 0, header, walkCut) {
 					bad = true
 				}
 			}
 			c.Check(R, fname+"|cut-off-records-root", cutPos, !bad,
 				ifelse(!bad, "a node at the depth limit is recorded as a root (only when a limit is set)", "a node at the depth limit is dropped instead of being recorded as a root, or the cut-off applies without a limit"))
 		}
-		// (5) default FindPredecessors = src.Predecessors, installed only when nil
-		var defStores []*ssa.Store
+		// (5) default FindPredecessors = src.Predecessors, used only when the option is nil.  The default is either
+		// stored into the option field, or an alternative of the variable the lookup is called through.
+		fieldLoads := map[ssa.Value]bool{}
 		AllInstrs(F, func(in ssa.Instruction) {
-			if s, ok := in.(*ssa.Store); ok {
-				if p, ok := c01AddrPath(s.Addr); ok && p.last() == fpOpt {
-					defStores = append(defStores, s)
+			if v, isV := in.(ssa.Value); isV && c01IsFieldValue(v, fpOpt) {
+				for a := range Aliases(v) {
+					fieldLoads[a] = true
 				}
 			}
 		})
-		if len(defStores) == 0 {
-			c.Violation(R, fname+"|default-predecessors", F.Pos(), "no default is installed for a nil FindPredecessors")
+		nilE, _, _ := NilTests(F, fieldLoads)
+		isAdapter := func(g *ssa.Function) bool {
+			if g == nil || len(g.Blocks) == 0 {
+				return false
+			}
+			n := 0
+			for _, a := range RetAtoms(g, 0) {
+				n++
+				ex, isEx := a.Val.(*ssa.Extract)
+				if !isEx {
+					return false
+				}
+				call, isCall := ex.Tuple.(*ssa.Call)
+				if !isCall || CalleeName(call) != "(~/content.PredecessorFinder).Predecessors" || ex.Index != 0 {
+					return false
+				}
+				if c01ParamOf(call.Call.Args[len(call.Call.Args)-1]) == nil || c01ParamOf(call.Call.Value) == nil {
+					return false
+				}
+			}
+			return n > 0
 		}
-		for _, s := range defStores {
-			var g *ssa.Function
-			switch v := s.Val.(type) {
-			case *ssa.Function:
-				g = v
-			case *ssa.MakeClosure:
-				g = v.Fn.(*ssa.Function)
-			}
-			ok := g != nil
-			if ok {
-				for _, a := range RetAtoms(g, 0) {
-					ex, isEx := a.Val.(*ssa.Extract)
-					if !isEx {
-						ok = false
-						continue
-					}
-					call, isCall := ex.Tuple.(*ssa.Call)
-					if !isCall || CalleeName(call) != "(~/content.PredecessorFinder).Predecessors" || ex.Index != 0 {
-						ok = false
-						continue
-					}
-					if c01ParamOf(call.Call.Args[len(call.Call.Args)-1]) == nil || c01ParamOf(call.Call.Value) == nil {
-						ok = false
-					}
-				}
-			}
-			fieldLoads := map[ssa.Value]bool{}
-			AllInstrs(F, func(in ssa.Instruction) {
-				if v, isV := in.(ssa.Value); isV && c01IsFieldValue(v, fpOpt) {
-					fieldLoads[v] = true
-				}
-			})
-			nilE, _, _ := NilTests(F, fieldLoads)
+		nDef := 0
+		for _, s := range c04FieldStores(F, fpOpt) {
+			nDef++
+			g, _ := c01FuncOfValue(s.Val)
 			guarded := len(nilE) > 0 && MustPass(s, newCut().Edges(nilE...))
-			c.Check(R, fname+"|default-predecessors", s.Pos(), ok && guarded,
-				ifelse(ok && guarded, "a nil FindPredecessors defaults to src.Predecessors(ctx, desc)", "the default FindPredecessors is not src.Predecessors of the asked node, or it overwrites a caller-supplied function"))
+			ok := isAdapter(g) && guarded
+			c.Check(R, fname+"|default-predecessors", s.Pos(), ok,
+				ifelse(ok, "a nil FindPredecessors defaults to src.Predecessors(ctx, desc)", "the default FindPredecessors is not src.Predecessors of the asked node, or it overwrites a caller-supplied function"))
+		}
+		for _, alt := range c03Alternatives(fp.Common().Value) {
+			if fieldLoads[alt.Val] || c01IsFieldValue(alt.Val, fpOpt) {
+				continue
+			}
+			nDef++
+			g, _ := c01FuncOfValue(alt.Val)
+			guarded := false
+			for _, e := range alt.Edges {
+				if len(nilE) > 0 && c01MustPassEdge(e, newCut().Edges(nilE...)) {
+					guarded = true
+				}
+			}
+			ok := isAdapter(g) && guarded
+			c.Check(R, fname+"|default-predecessors", fp.Pos(), ok,
+				ifelse(ok, "a nil FindPredecessors defaults to src.Predecessors(ctx, desc)", "the function the lookup goes through can be something else than the FindPredecessors option or, when that is nil, src.Predecessors of the asked node"))
+		}
+		if nDef == 0 {
+			c.Violation(R, fname+"|default-predecessors", F.Pos(), "no default is used for a nil FindPredecessors")
 		}
 		// the returned roots derive from the map the record effect updates
 		okRoots := true
@@ -566,11 +686,17 @@ func c03R1(c *Ctx) {
 			if c01IsErrorReturn(rt, ErrResultIndex(F.Signature)) {
 				continue
 			}
-			if !c01Slice(rt.Results[0], func(x ssa.Value) bool { _, ok := x.(*ssa.Range); return ok }) {
+			if !c01Slice(rt.Results[0], func(x ssa.Value) bool {
+				if _, ok := x.(*ssa.Range); ok {
+					return true
+				}
+				mt, ok := x.Type().Underlying().(*types.Map)
+				return ok && c01IsOCIDescriptor(mt.Elem())
+			}) {
 				okRoots = false
 			}
 		}
-		c.Check(R, fname+"|returns-recorded-roots", F.Pos(), okRoots, "the successful result is built by ranging over the recorded-roots map")
+		c.Check(R, fname+"|returns-recorded-roots", F.Pos(), okRoots, "the successful result is built from the recorded-roots map")
 	}
 }
 
@@ -589,19 +715,54 @@ func c03R2(c *Ctx) {
 		c.LostAnchor(R, "graph copy (function handing the traversal to syncutil.Go)")
 		return
 	}
-	gos := CallsTo(E, nGo)
-	if len(gos) != 1 {
-		c.Undecided(R, "~.ExtendedCopyGraph|dispatch", E.Pos(), fmt.Sprintf("%d syncutil.Go call sites in ExtendedCopyGraph", len(gos)))
+	// the dispatch of the roots: a syncutil.Go call in ExtendedCopyGraph or in a module helper it calls (depth <= 3);
+	// helper parameters are mapped back to the values at the helper's call site
+	chain := map[*ssa.Function]bool{}
+	var findGo func(fn *ssa.Function, subst map[*ssa.Parameter]ssa.Value, depth int) (ssa.CallInstruction, ssa.Value)
+	findGo = func(fn *ssa.Function, subst map[*ssa.Parameter]ssa.Value, depth int) (ssa.CallInstruction, ssa.Value) {
+		resolve := func(a ssa.Value) ssa.Value {
+			if p := c01ParamOf(a); p != nil && p.Parent() == fn {
+				if v, ok := subst[p]; ok {
+					return v
+				}
+			}
+			return a
+		}
+		if gs := CallsTo(fn, nGo); len(gs) == 1 {
+			chain[fn] = true
+			return gs[0], resolve(variadicArg(gs[0]))
+		}
+		if depth >= 3 {
+			return nil, nil
+		}
+		for _, call := range Calls(fn, func(string) bool { return true }) {
+			g := StaticCallee(call)
+			if g == nil || !inModule(g) || len(g.Blocks) == 0 || len(call.Common().Args) != len(g.Params) || copyGraphs[g] {
+				continue
+			}
+			sub := map[*ssa.Parameter]ssa.Value{}
+			for i, prm := range g.Params {
+				sub[prm] = resolve(call.Common().Args[i])
+			}
+			if gc, items := findGo(g, sub, depth+1); gc != nil {
+				chain[fn] = true
+				return gc, items
+			}
+		}
+		return nil, nil
+	}
+	goCall, items := findGo(E, map[*ssa.Parameter]ssa.Value{}, 0)
+	if goCall == nil {
+		c.Undecided(R, "~.ExtendedCopyGraph|dispatch", E.Pos(), "no single syncutil.Go dispatch of the roots found in ExtendedCopyGraph or the helpers it calls")
 		return
 	}
-	goCall := gos[0]
 	// roots = result of the root finder
 	finders := map[*ssa.Function]bool{}
 	for _, f := range c03RootFinders(c.P) {
 		finders[f] = true
 	}
 	rootsOK := false
-	for _, r := range Roots(variadicArg(goCall)) {
+	for _, r := range Roots(items) {
 		if ex, ok := r.(*ssa.Extract); ok && ex.Index == 0 {
 			if call, ok := ex.Tuple.(*ssa.Call); ok && finders[StaticCallee(call)] {
 				rootsOK = true
@@ -673,7 +834,7 @@ func c03R2(c *Ctx) {
 		arg := cgArgs[i]
 		ok, detail := false, "the "+what+" handed to the per-root copy is not a single object created once in ExtendedCopyGraph (nil or per-root values make every root use its own, so shared sub-graphs are copied twice and ordering across roots is lost)"
 		if srcs, carried := c01CarriedSources(c.P, arg); carried && len(srcs) == 1 {
-			if call, isCall := srcs[0].(*ssa.Call); isCall && call.Parent() == E && !Reachable(call, call) {
+			if call, isCall := srcs[0].(*ssa.Call); isCall && chain[call.Parent()] && !Reachable(call, call) {
 				ok, detail = true, "state carried into the per-root copy, assigned once from "+CalleeName(call)+" outside the per-root function"
 			}
 		}
@@ -689,9 +850,11 @@ func c03R2(c *Ctx) {
 type c03Sink struct {
 	At    ssa.Instruction // the store / return
 	Edges []Edge          // phi edges selecting this alternative
-	Kind  string          // "AT" manifest.artifactType, "CFG" manifest.config.mediaType, "CALL" result of module function G
+	Kind  string          // "AT" manifest.artifactType, "CFG" manifest.config.mediaType, "CALL" result of module function G, "CARRY" field of a carrier struct
 	Base  ssa.Value       // decoded struct the value was read from
 	G     *ssa.Function
+	Field *types.Var // for CARRY: the carrier field the value was read from
+	Safe  bool       // the fallback is confined by construction (cmp.Or(artifactType, config.mediaType))
 }
 
 func (s c03Sink) feasible(k *cut) bool {
@@ -707,7 +870,7 @@ func (s c03Sink) feasible(k *cut) bool {
 }
 
 func (s c03Sink) guarded(c *cut) bool {
-	if MustPass(s.At, c) {
+	if s.Safe || MustPass(s.At, c) {
 		return true
 	}
 	for _, e := range s.Edges {
@@ -722,7 +885,7 @@ func (s c03Sink) guarded(c *cut) bool {
 // of a decoded manifest struct (anything but a Descriptor).
 func c03Classify(v ssa.Value) (kind string, base ssa.Value) {
 	p, ok := c01ValuePath(v)
-	if !ok || len(p.Vars) == 0 {
+	if !ok || len(p.Vars) == 0 || !c03IsDecoded(p.Base) {
 		return "", nil
 	}
 	n := len(p.JSON)
@@ -735,6 +898,60 @@ func c03Classify(v ssa.Value) (kind string, base ssa.Value) {
 		return "CFG", p.Base
 	}
 	return "", nil
+}
+
+// c03IsDecoded: base is a struct a manifest document is decoded into — a local
+// whose address is handed to encoding/json, or a parameter of such a struct
+// type whose fields carry JSON tags (a helper receiving the decoded manifest).
+func c03IsDecoded(base ssa.Value) bool {
+	a, ok := base.(*ssa.Alloc)
+	if !ok {
+		return false
+	}
+	for _, r := range *a.Referrers() {
+		if mi, isMI := r.(*ssa.MakeInterface); isMI {
+			for _, r2 := range *mi.Referrers() {
+				if call, isCall := r2.(ssa.CallInstruction); isCall {
+					n := CalleeName(call)
+					if strings.HasPrefix(n, "encoding/json.") || strings.HasPrefix(n, "(*encoding/json.") {
+						return true
+					}
+				}
+			}
+		}
+	}
+	ss := storesTo(a)
+	if len(ss) == 1 {
+		if _, isParam := ss[0].Val.(*ssa.Parameter); isParam {
+			if st := c01StructOf(a.Type()); st != nil {
+				for i := 0; i < st.NumFields(); i++ {
+					if strings.Contains(st.Tag(i), "json:") {
+						return true
+					}
+				}
+			}
+		}
+	}
+	return false
+}
+
+// c03CarrierField: v reads a string field of a struct that is not a decoded
+// document and not a Descriptor (a struct that merely carries extracted values).
+func c03CarrierField(v ssa.Value) *types.Var {
+	p, ok := c01ValuePath(v)
+	if !ok || len(p.Vars) != 1 || c03IsDecoded(p.Base) {
+		return nil
+	}
+	if c01IsOCIDescriptor(derefType(p.Base.Type())) {
+		return nil
+	}
+	if b, isStr := p.Vars[0].Type().Underlying().(*types.Basic); !isStr || b.Kind() != types.String {
+		return nil
+	}
+	if p.Vars[0].Pkg() == nil || !strings.HasPrefix(p.Vars[0].Pkg().Path(), Mod) {
+		return nil
+	}
+	return p.Vars[0]
 }
 
 func derefType(t types.Type) types.Type {
@@ -785,10 +1002,13 @@ func c03Alternatives(v ssa.Value) []c03Alt {
 	return out
 }
 
-// c03SinkOf classifies one alternative fixed at instruction at.
-func c03SinkOf(at ssa.Instruction, a c03Alt) (c03Sink, bool) {
+// c03SinksOf classifies one alternative fixed at instruction at.
+func c03SinksOf(at ssa.Instruction, a c03Alt) []c03Sink {
 	if k, b := c03Classify(a.Val); k != "" {
-		return c03Sink{At: at, Edges: a.Edges, Kind: k, Base: b}, true
+		return []c03Sink{{At: at, Edges: a.Edges, Kind: k, Base: b}}
+	}
+	if fv := c03CarrierField(a.Val); fv != nil {
+		return []c03Sink{{At: at, Edges: a.Edges, Kind: "CARRY", Field: fv}}
 	}
 	var call *ssa.Call
 	switch u := a.Val.(type) {
@@ -799,14 +1019,56 @@ func c03SinkOf(at ssa.Instruction, a c03Alt) (c03Sink, bool) {
 			call = cl
 		}
 	}
-	if call != nil {
-		if g := StaticCallee(call); g != nil && inModule(g) && len(g.Blocks) > 0 {
-			if b, ok := g.Signature.Results().At(0).Type().Underlying().(*types.Basic); ok && b.Kind() == types.String {
-				return c03Sink{At: at, Edges: a.Edges, Kind: "CALL", G: g}, true
+	if call == nil {
+		return nil
+	}
+	// cmp.Or(x, y, …): the first non-empty operand — artifactType preferred, config.mediaType only when it is empty
+	if CalleeName(call) == "cmp.Or" && len(call.Call.Args) == 1 {
+		var elems []ssa.Value
+		if sl, ok := call.Call.Args[0].(*ssa.Slice); ok {
+			if arr, ok := sl.X.(*ssa.Alloc); ok {
+				byIdx := map[int64]ssa.Value{}
+				for _, r := range *arr.Referrers() {
+					if ia, ok := r.(*ssa.IndexAddr); ok {
+						if k, isK := constInt(ia.Index); isK {
+							for _, r2 := range *ia.Referrers() {
+								if st, ok := r2.(*ssa.Store); ok && st.Addr == ia {
+									byIdx[k] = st.Val
+								}
+							}
+						}
+					}
+				}
+				for k := int64(0); k < int64(len(byIdx)); k++ {
+					elems = append(elems, byIdx[k])
+				}
 			}
 		}
+		var out []c03Sink
+		var atBase ssa.Value
+		for _, e := range elems {
+			if e == nil {
+				return nil
+			}
+			k, b := c03Classify(e)
+			switch {
+			case k == "AT" && atBase == nil:
+				atBase = b
+				out = append(out, c03Sink{At: at, Edges: a.Edges, Kind: "AT", Base: b})
+			case k == "CFG" && atBase != nil && b == atBase:
+				out = append(out, c03Sink{At: at, Edges: a.Edges, Kind: "CFG", Base: b, Safe: true})
+			default:
+				return nil // an operand that is neither: not the recognised idiom
+			}
+		}
+		return out
 	}
-	return c03Sink{}, false
+	if g := StaticCallee(call); g != nil && inModule(g) && len(g.Blocks) > 0 {
+		if b, ok := g.Signature.Results().At(0).Type().Underlying().(*types.Basic); ok && b.Kind() == types.String {
+			return []c03Sink{{At: at, Edges: a.Edges, Kind: "CALL", G: g}}
+		}
+	}
+	return nil
 }
 
 // c03ReturnSinks: classified result-0 alternatives of g.
@@ -820,9 +1082,7 @@ func c03ReturnSinks(g *ssa.Function) []c03Sink {
 		if a.Store != nil && len(a.Edges) == 0 {
 			at = a.Store
 		}
-		if s, ok := c03SinkOf(at, c03Alt{a.Val, a.Edges}); ok {
-			out = append(out, s)
-		}
+		out = append(out, c03SinksOf(at, c03Alt{a.Val, a.Edges})...)
 	}
 	return out
 }
@@ -840,9 +1100,7 @@ func c03StoreSinks(f *ssa.Function, descAT *types.Var) []c03Sink {
 			return
 		}
 		for _, a := range c03Alternatives(s.Val) {
-			if sk, ok := c03SinkOf(s, a); ok {
-				out = append(out, sk)
-			}
+			out = append(out, c03SinksOf(s, a)...)
 		}
 	})
 	return out
@@ -868,14 +1126,42 @@ func c03R3(c *Ctx) {
 	handled := []string{"image-manifest", "image-index", "artifact-manifest"}
 
 	memo := map[*ssa.Function]*c03Verdict{}
-	// derives: does g (as a string-returning helper) read a decoded manifest?
+	sinkFieldOf := map[*ssa.Function]*types.Var{} // the field X's sinks are stored into (nil: returned values)
+	// carriers of a field of a value-carrying struct: the module functions storing a manifest-derived value into it
+	carrierCache := map[*types.Var][]*ssa.Function{}
+	carriers := func(fv *types.Var) []*ssa.Function {
+		if fs, ok := carrierCache[fv]; ok {
+			return fs
+		}
+		var fs []*ssa.Function
+		for _, g := range c01ModuleFuncs(c.P) {
+			for _, sk := range c03StoreSinks(g, fv) {
+				if sk.Kind == "AT" || sk.Kind == "CFG" || sk.Kind == "CALL" {
+					fs = append(fs, g)
+					break
+				}
+			}
+		}
+		carrierCache[fv] = fs
+		return fs
+	}
+	// derives: does the sink read a decoded manifest (directly, through a helper or through a carrier struct)?
 	var derives func(g *ssa.Function, d int) bool
+	sinkDerives := func(sk c03Sink, d int) bool {
+		switch sk.Kind {
+		case "CALL":
+			return derives(sk.G, d+1)
+		case "CARRY":
+			return len(carriers(sk.Field)) > 0
+		}
+		return true
+	}
 	derives = func(g *ssa.Function, d int) bool {
 		if d > 2 {
 			return false
 		}
 		for _, s := range c03ReturnSinks(g) {
-			if s.Kind != "CALL" || derives(s.G, d+1) {
+			if sinkDerives(s, d) {
 				return true
 			}
 		}
@@ -900,11 +1186,38 @@ func c03R3(c *Ctx) {
 			c.Undecided(R, xn+"|media-type-dispatch", X.Pos(), "media types of several descriptors are compared in this function; cannot attribute the cases")
 			return v
 		}
-		sub := func(g *ssa.Function) *c03Verdict {
+		sinkField := sinkFieldOf[X]
+		if sinkField == nil {
+			sinkField = descAT
+		}
+		subG := func(g *ssa.Function) *c03Verdict {
 			if depth > 2 {
 				return &c03Verdict{handles: map[string]bool{}}
 			}
 			return eval(g, c03ReturnSinks(g), depth+1)
+		}
+		// verdict behind a delegating sink: a helper's result, or the functions filling a carrier field
+		sub := func(sk c03Sink) *c03Verdict {
+			if sk.Kind == "CALL" {
+				return subG(sk.G)
+			}
+			out := &c03Verdict{handles: map[string]bool{}, prefers: true}
+			if depth > 2 {
+				return out
+			}
+			for _, g := range carriers(sk.Field) {
+				sinkFieldOf[g] = sk.Field
+				gv := eval(g, c03StoreSinks(g, sk.Field), depth+1)
+				for kd, h := range gv.handles {
+					if h {
+						out.handles[kd] = true
+					}
+				}
+				if !gv.prefers {
+					out.prefers = false
+				}
+			}
+			return out
 		}
 		for _, kind := range handled {
 			k, und := c01CaseCutP(X, tests, kinds.ByKind[kind], isMT)
@@ -920,7 +1233,7 @@ func c03R3(c *Ctx) {
 				switch {
 				case s.Kind == "AT", s.Kind == "CFG" && kind == "image-manifest":
 					found = true // (for image manifests the preference of artifactType is its own obligation below)
-				case s.Kind == "CALL" && sub(s.G).handles[kind]:
+				case (s.Kind == "CALL" || s.Kind == "CARRY") && sub(s).handles[kind]:
 					found = true
 				}
 			}
@@ -947,7 +1260,7 @@ func c03R3(c *Ctx) {
 		}
 		callsOK := true
 		for _, s := range calls {
-			if !sub(s.G).prefers {
+			if !sub(s).prefers {
 				callsOK = false
 			}
 		}
@@ -978,7 +1291,7 @@ func c03R3(c *Ctx) {
 					// a Descriptor.ArtifactType field last assigned from manifest.artifactType
 					p, isPath := c01ValuePath(r)
 					ld, isLoad := r.(*ssa.UnOp)
-					if !isPath || !isLoad || p.last() != descAT {
+					if !isPath || !isLoad || p.last() != sinkField {
 						return false
 					}
 					fa, isFA := ld.X.(*ssa.FieldAddr)
@@ -997,7 +1310,7 @@ func c03R3(c *Ctx) {
 				}
 				return true
 			})
-			if len(emptyE) == 0 || !s.guarded(c01CutUnion(k, newCut().Edges(emptyE...))) {
+			if !s.Safe && (len(emptyE) == 0 || !s.guarded(c01CutUnion(k, newCut().Edges(emptyE...)))) {
 				ok, detail, pos = false, "config.mediaType can replace a non-empty artifactType: the fallback is not confined to the edge where the manifest's artifactType is empty", s.At.Pos()
 			}
 		}
@@ -1016,9 +1329,10 @@ func c03R3(c *Ctx) {
 		sinks := c03StoreSinks(f, descAT)
 		isDeriver, via := false, false
 		for _, s := range sinks {
-			if s.Kind != "CALL" {
+			switch {
+			case s.Kind == "AT" || s.Kind == "CFG":
 				isDeriver = true
-			} else if derives(s.G, 0) {
+			case sinkDerives(s, 0):
 				isDeriver, via = true, true
 			}
 		}
@@ -1028,7 +1342,7 @@ func c03R3(c *Ctx) {
 		// keep only the sinks that read a manifest
 		var kept []c03Sink
 		for _, s := range sinks {
-			if s.Kind != "CALL" || derives(s.G, 0) {
+			if sinkDerives(s, 0) {
 				kept = append(kept, s)
 			}
 		}
@@ -1042,8 +1356,8 @@ func c03R3(c *Ctx) {
 		eval(f, kept, 0)
 	}
 	// frozen sibling table (by role)
-	if !referrersSeen {
-		c.LostAnchor(R, "~/registry.Referrers as a deriver of Descriptor.ArtifactType from decoded manifests")
+	if !referrersSeen && !have[pkgPath("registry")] {
+		c.LostAnchor(R, "deriver of Descriptor.ArtifactType from decoded manifests in ~/registry (Referrers' predecessor path)")
 	}
 	if !have[pkgPath("registry/remote")] {
 		c.LostAnchor(R, "deriver of Descriptor.ArtifactType from a pushed manifest in ~/registry/remote (referrers index update)")
@@ -1134,7 +1448,7 @@ type c03FilterLoop struct {
 // c03CheckFilterLoop analyses one `for _, e := range X` over descriptors in G
 // that filters e through a keep test into an accumulator.
 func c03CheckFilterLoop(G *ssa.Function, l *Loop, descMT *types.Var) (res c03FilterLoop, isFilter bool) {
-	X, idx, body, _, _ := l.RangeIndex()
+	X, idx, body, _, _ := c01ElemLoop(l)
 	res.loop = l
 	header := l.Header.Instrs[0]
 	derivesElem := func(v ssa.Value) bool {
@@ -1155,7 +1469,7 @@ func c03CheckFilterLoop(G *ssa.Function, l *Loop, descMT *types.Var) (res c03Fil
 		if !ok || strings.HasPrefix(CalleeName(call), "builtin:") {
 			continue
 		}
-		if g := StaticCallee(call); g != nil && inModule(g) && len(c01StrTests(g, isMT)) > 0 {
+		if len(c01PredicateTests(call, isMT)) > 0 {
 			continue // media-type dispatch predicate, not the filter
 		}
 		uses := false
@@ -1316,6 +1630,7 @@ func c03R6(c *Ctx) {
 		return ok && c01IsOCIDescriptor(sl.Elem())
 	}
 	nWrappers := 0
+	listerCalls := map[ssa.CallInstruction]bool{}
 	for _, F := range c.P.FuncsOfPkg("") {
 		for _, st := range c04FieldStores(F, fpOpt) {
 			mc, ok := st.Val.(*ssa.MakeClosure)
@@ -1324,8 +1639,22 @@ func c03R6(c *Ctx) {
 			}
 			W := mc.Fn.(*ssa.Function)
 			wk := c01OuterName(W) + "$wrapper"
-			// --- the Referrers page callback ---
-			for _, rc := range CallsTo(W, "(~/registry.ReferrerLister).Referrers") {
+			// --- the Referrers page callback: in the wrapper itself, or in a module helper it lists through ---
+			const nReferrers = "(~/registry.ReferrerLister).Referrers"
+			L := W
+			var viaHelper ssa.CallInstruction
+			if len(CallsTo(W, nReferrers)) == 0 {
+				for _, call := range Calls(W, func(string) bool { return true }) {
+					if h := StaticCallee(call); h != nil && inModule(h) && len(h.Blocks) > 0 && len(CallsTo(h, nReferrers)) > 0 {
+						L, viaHelper = h, call
+					}
+				}
+			}
+			if viaHelper != nil {
+				listerCalls[viaHelper] = true
+			}
+			for _, rc := range CallsTo(L, nReferrers) {
+				W := L // the function holding the listing (shadowing: the checks below are about it)
 				nWrappers++
 				ck := c01OuterName(W) + "$page-callback"
 				args := rc.Common().Args
@@ -1342,7 +1671,7 @@ func c03R6(c *Ctx) {
 				G := cb.Fn.(*ssa.Function)
 				var fl *c03FilterLoop
 				for _, l := range Loops(G) {
-					if X, _, _, _, ok := l.RangeIndex(); ok && isDescSlice(X.Type()) && c01ParamOf(X) != nil {
+					if X, _, _, _, ok := c01ElemLoop(l); ok && isDescSlice(X.Type()) && c01ParamOf(X) != nil {
 						if r, isF := c03CheckFilterLoop(G, l, descMT); isF {
 							fl = &r
 						}
@@ -1376,10 +1705,23 @@ func c03R6(c *Ctx) {
 				}
 				okC := cell != nil
 				if okC {
-					for _, s2 := range storesTo(cell) {
-						if Reachable(rc.(ssa.Instruction), s2) {
-							okC = false
+					// the value read from the cell at ld is what the callback left there: no store after the listing
+					// reaches it, except re-storing the cell's own value (named results at a return statement)
+					var untouched func(ld *ssa.UnOp, d int) bool
+					untouched = func(ld *ssa.UnOp, d int) bool {
+						if d > 3 {
+							return false
 						}
+						for _, st := range ReachingStores(cell, ld) {
+							if st == nil || !Reachable(rc.(ssa.Instruction), st) {
+								continue
+							}
+							l2, isLoad := st.Val.(*ssa.UnOp)
+							if !isLoad || l2.Op != token.MUL || l2.X != ssa.Value(cell) || !untouched(l2, d+1) {
+								return false
+							}
+						}
+						return true
 					}
 					n := 0
 					if e := ErrOf(rc); e != nil {
@@ -1391,8 +1733,7 @@ func c03R6(c *Ctx) {
 								}
 								n++
 								ld, isLoad := ret.Results[0].(*ssa.UnOp)
-								if !isLoad || ld.Op != token.MUL || ld.X != ssa.Value(cell) {
-									// falling through to the second filtering stage is fine as long as it ranges over the cell
+								if !isLoad || ld.Op != token.MUL || ld.X != ssa.Value(cell) || !untouched(ld, 0) {
 									okC = false
 								}
 							}
@@ -1402,20 +1743,33 @@ func c03R6(c *Ctx) {
 						okC = false
 					}
 				}
+				// listed through a helper: the wrapper hands the helper's list on (returned as is, or filtered below)
+				if okC && viaHelper != nil {
+					used := false
+					if lst := ResultOf(viaHelper, 0); lst != nil {
+						al := Aliases(lst)
+						for _, ret := range Returns(mc.Fn.(*ssa.Function)) {
+							if al[ret.Results[0]] || al[strip(ret.Results[0])] {
+								used = true
+							}
+						}
+					}
+					okC = used
+				}
 				c.Check(R, wk+"|returns-page-accumulator", rc.Pos(), okC,
 					ifelse(okC, "after a successful listing the wrapper returns the accumulator the callback appended to", "after a successful Referrers listing the wrapper does not return the accumulator filled by the page callback (or overwrites it)"))
 			}
 			// --- the filtering loop over listed predecessors ---
 			var fl *c03FilterLoop
 			for _, l := range Loops(W) {
-				if X, _, _, _, ok := l.RangeIndex(); ok && isDescSlice(X.Type()) {
+				if X, _, _, _, ok := c01ElemLoop(l); ok && isDescSlice(X.Type()) {
 					if r, isF := c03CheckFilterLoop(W, l, descMT); isF {
 						fl = &r
 					}
 				}
 			}
 			if fl == nil {
-				if len(CallsTo(W, "(~/registry.ReferrerLister).Referrers")) > 0 {
+				if len(CallsTo(L, nReferrers)) > 0 {
 					c.Undecided(R, wk+"|every-predecessor-tested-and-kept", W.Pos(), "no filtering loop over the listed predecessors recognised in the wrapper")
 				}
 				continue
@@ -1426,14 +1780,14 @@ func c03R6(c *Ctx) {
 				continue
 			}
 			// the ranged list is what the predecessor lookup returned
-			X, _, _, exit, _ := fl.loop.RangeIndex()
+			X, _, _, exit, _ := c01ElemLoop(fl.loop)
 			okX := c01Slice(X, func(x ssa.Value) bool {
 				ex, isEx := x.(*ssa.Extract)
 				if !isEx || ex.Index != 0 {
 					return false
 				}
 				call, isCall := ex.Tuple.(*ssa.Call)
-				return isCall && (CalleeName(call) == "(~/content.PredecessorFinder).Predecessors" || strings.HasPrefix(CalleeName(call), "dyn:"))
+				return isCall && (CalleeName(call) == "(~/content.PredecessorFinder).Predecessors" || strings.HasPrefix(CalleeName(call), "dyn:") || listerCalls[call])
 			})
 			c.Check(R, wk+"|filters-the-listed-predecessors", blockPos(fl.loop.Header), okX,
 				ifelse(okX, "the loop ranges over what src.Predecessors / the previous FindPredecessors returned", "the filtering loop does not range over the predecessors that were looked up"))
